@@ -216,6 +216,16 @@ func c08Exec(r *vf.Run, k c08Case) []finding {
 			add(fmt.Sprintf("verify/%s/%s/%s", kind, rn, cls), "%s: %v — %s", rn, verr, k.Spec.Describe())
 			continue
 		}
+		r.Outcome(fmt.Sprintf("reached/verified/hist=%d/signapi=%d", k.Hist, k.Spec.SignAPI))
+		if k.PreRenders > 0 {
+			r.Outcome("reached/verified/signed-after-unsigned-renders")
+		}
+		if k.FailAt > 0 {
+			r.Outcome("reached/verified/after-failed-render")
+		}
+		if len(k.Switch) == 3 {
+			r.Outcome("reached/verified/map-order-switch")
+		}
 		wantKey := "RSA"
 		if k.Spec.SMIME == 2 {
 			wantKey = "ECDSA"
@@ -416,6 +426,7 @@ func init() {
 				r.Incomplete("runtime map-iteration seam not available: map order is sampled")
 			}
 			if r.Fork(r.Workers) {
+				r.Reached("reached/verified/hist=0/signapi=0", "reached/verified/hist=1/signapi=0", "reached/verified/hist=2/signapi=0", "reached/verified/hist=3/signapi=0", "reached/verified/hist=4/signapi=0", "reached/verified/hist=0/signapi=1", "reached/verified/hist=0/signapi=2", "reached/verified/hist=0/signapi=3", "reached/verified/hist=0/signapi=4", "reached/verified/signed-after-unsigned-renders", "reached/verified/after-failed-render", "reached/verified/map-order-switch")
 				return
 			}
 			cases := c08Specs(r.Thorough)
